@@ -83,8 +83,9 @@ class Panoptica_Aggregator:
         else:
             out_file_path += ".tsv"  # add extension
 
+        # one buffer per output file, so aggregators writing into the same directory do not share claims
         out_buffer_file: Path = Path(out_file_path).parent.joinpath(
-            "panoptica_aggregator_tmp.tsv"
+            Path(out_file_path).stem + "_panoptica_aggregator_tmp.tsv"
         )
         self.__output_buffer_file = out_buffer_file
 
